@@ -390,6 +390,18 @@ def run_case(ctx, case):
     corpus = case["corpus"]
     project, by_id = query.build_project(ctx, corpus)
     rng = random.Random(case["fseed"])
+    if case["fseed"] % 4 == 0 and by_id:
+        # one job lives elsewhere (say on scratch storage) and is linked back into the workspace: still a job, for
+        # every view of every cursor
+        jid = sorted(by_id)[0]
+        home = os.path.join(project.path, "relocated")
+        os.makedirs(home, exist_ok=True)
+        os.replace(os.path.join(project.workspace, jid), os.path.join(home, jid))
+        os.symlink(os.path.join(home, jid), os.path.join(project.workspace, jid))
+        ctx.count("corpora_with_a_symlinked_job_directory")
+        import signac
+
+        project = signac.Project(project.path)
     filters = [None, {}]
     for _ in range(case["nrand"]):
         filters.append(query.rand_filter(rng, corpus, rng.choice([0, 0, 0, 1, 1, 2])))
